@@ -220,6 +220,7 @@ func C06(ctx *core.Ctx, r *core.Report) {
 	c06MapOrder(ctx, r)
 	c06ExtensionOnce(ctx, r, g)
 	c06SiblingOrder(ctx, r)
+	c06BuilderFresh(ctx, r)
 }
 
 // D6/D7: lexer.keywords[i] spells the i-th kywd token declared after token_semi.
@@ -1090,3 +1091,36 @@ func c06SiblingOrder(ctx *core.Ctx, r *core.Report) {
 	}
 	r.Floor("sibling-order", len(fields), 8)
 }
+
+// c06BuilderFresh: every Builder method that creates a schema object returns
+// an object allocated by that call. A builder that hands out a cached or
+// shared object makes two statements of the module one object: what is written
+// on one of them (invert-match, error-message, description …) alters the other.
+func c06BuilderFresh(ctx *core.Ctx, r *core.Report) {
+	metaPkg := ctx.TPkg("meta")
+	n := 0
+	for _, f := range exportedMethods(ctx, "meta", "Builder") {
+		res := f.Signature.Results()
+		if res.Len() != 1 {
+			continue
+		}
+		named := core.NamedOf(res.At(0).Type())
+		if named == nil || named.Obj().Pkg() != metaPkg {
+			continue
+		}
+		if _, isPtr := res.At(0).Type().(*types.Pointer); !isPtr {
+			continue
+		}
+		n++
+		ok, why := freshResult(f, 0, 0)
+		if reason, t := c06FreshTriage[core.FnName(f)]; t && !ok {
+			r.Ob("builder-returns-fresh", core.FnName(f), ctx.Pos(f.Pos()), true, "triaged: "+reason)
+			continue
+		}
+		r.Ob("builder-returns-fresh", core.FnName(f), ctx.Pos(f.Pos()), ok,
+			"the builder does not create a new object for each statement ("+why+"): two statements share one schema object and overwrite each other's substatements")
+	}
+	r.Floor("builder-returns-fresh", n, 30)
+}
+
+var c06FreshTriage = map[string]string{}
